@@ -615,6 +615,26 @@ class FuncGraph:
     def st_Expr(self, s, env):
         if isinstance(s.value, ast.Constant):
             return None
+        v = s.value
+        if isinstance(v, ast.Call) and isinstance(v.func, ast.Attribute) and v.func.attr == 'copyto' and isinstance(v.func.value, ast.Name) and v.func.value.id in ('np', 'numpy') \
+                and len(v.args) == 2 and not v.keywords:
+            # np.copyto(buf, src) is buf[...] = src; through a reshape view of the buffer, np.copyto(np.reshape(buf, S), src) / np.copyto(buf.reshape(S), src), the buffer receives
+            # the same entries in its own shape
+            dst, src = v.args
+            np_ = v.func.value.id
+            new = None
+            if isinstance(dst, ast.Name):
+                new = f'{dst.id}[...] = {ast.unparse(src)}'
+            elif isinstance(dst, ast.Call) and isinstance(dst.func, ast.Attribute) and dst.func.attr == 'reshape' and not dst.keywords:
+                base = dst.args[0] if (isinstance(dst.func.value, ast.Name) and dst.func.value.id in ('np', 'numpy') and dst.args) else dst.func.value
+                if isinstance(base, ast.Name) and base.id not in ('np', 'numpy'):
+                    new = f'{base.id}[...] = {np_}.reshape({ast.unparse(src)}, {base.id}.shape)'
+            if new is not None:
+                st = ast.parse(new).body[0]
+                for x in ast.walk(st):
+                    ast.copy_location(x, s)
+                ast.fix_missing_locations(st)
+                return self.st_Assign(st, env)
         self.expr(s.value, env)
         return None
 
@@ -2929,6 +2949,15 @@ class FuncGraph:
                 if name is not None:
                     self.bind(name, new, env, e)
                     self._write_through_view(args[0], new, env, e, skip=name)
+                return new
+            if out is args[1]:
+                # np.subtract(a, b, out=b): the buffer of the SECOND operand receives a - b
+                new = self.mk('binop', (opn, args[0], args[1]), e)
+                name = next((k.value.id for k in e.keywords if k.arg == 'out' and isinstance(k.value, ast.Name)), None)
+                self.event('inplace', new, e, data=dict(target=args[1], how='out', name=name))
+                if name is not None:
+                    self.bind(name, new, env, e)
+                    self._write_through_view(args[1], new, env, e, skip=name)
                 return new
             return None
         if lib == 'numpy.sum' and plain and args and args[0].op == 'call' and args[0].args[0].op == 'ref' and isinstance(args[0].args[0].args[0], Lib) \
